@@ -564,6 +564,7 @@ func runC03(r *Run) {
 			}{p.name, p.coq, p.tpl, p.observe})
 		}
 		c03Routes(r, ps)
+		c03Shadowing(r, ps)
 	}
 	for _, p := range positions {
 		for _, v := range all {
@@ -722,4 +723,86 @@ func c03RenderAny(src string, data any) (string, error) {
 		err = vuego.New().Fill(data).RenderString(context.Background(), &buf, src)
 	}()
 	return buf.String(), err
+}
+
+// a name bound in an inner scope decides by ITS value at every position, whatever the same name holds further
+// out: a loop item that is nil / false / 0 / "" over a truthy outer variable or root field is falsy everywhere,
+// a truthy item over a falsy outer one is truthy everywhere; likewise for a name a <template :v="..."> assigned
+func c03Shadowing(r *Run, positions []struct {
+	name, coq, tpl string
+	observe        func(out string) bool
+}) {
+	type pair struct {
+		inner, outer any
+		want         bool
+	}
+	pairs := []pair{{nil, "featured", false}, {false, "featured", false}, {0, 7, false}, {"", true, false}, {nil, true, false}, {nil, 1, false},
+		{"x", nil, true}, {1, false, true}, {true, "", true}, {"x", 0, true}, {nil, nil, false}, {"x", "y", true}}
+	roots := map[string]func(outer any) any{
+		"map":    func(outer any) any { return map[string]any{"v": outer, "yes": true, "no": false} },
+		"struct": func(outer any) any { return c03ShadowRoot{V: outer, Yes: true} },
+	}
+	for _, pr := range pairs {
+		for rootName, mkRoot := range roots {
+			for _, wrap := range []string{"loop", "loop-index", "assign"} {
+				verdict := map[string]string{}
+				bad := false
+				for _, p := range positions {
+					if p.coq == "PNotIf" {
+						continue
+					}
+					var tpl string
+					var data any
+					switch wrap {
+					case "loop":
+						tpl = `<div v-for="v in vs">` + p.tpl + `</div>`
+					case "loop-index":
+						tpl = `<div v-for="(i, v) in vs">` + p.tpl + `</div>`
+					default:
+						// the assignment form binds the value of a path: the inner value is reached as in.x
+						tpl = `<div v-for="in in ins"><template :v="in.x"></template>` + p.tpl + `</div>`
+					}
+					root := mkRoot(pr.outer)
+					switch m := root.(type) {
+					case map[string]any:
+						m["vs"] = []any{pr.inner}
+						m["ins"] = []any{map[string]any{"x": pr.inner}}
+						data = m
+					case c03ShadowRoot:
+						m.Vs = []any{pr.inner}
+						m.Ins = []any{map[string]any{"x": pr.inner}}
+						data = m
+					}
+					if wrap == "assign" && pr.inner == nil {
+						continue // assigning nil: whether a nil assignment binds at all is C08's business
+					}
+					out, err := c03RenderAny(tpl, data)
+					r.Eval(fmt.Sprintf("shadow:%s:%s:%v/%v:%s", rootName, wrap, pr.inner, pr.outer, p.name), true, nil)
+					r.Count("stream:shadowing(oracle only)")
+					if err != nil {
+						verdict[p.name] = "error " + err.Error()
+						bad = true
+						continue
+					}
+					got := p.observe(out)
+					verdict[p.name] = fmt.Sprint(got)
+					if got != pr.want {
+						bad = true
+					}
+				}
+				if bad {
+					r.Fail("a name bound in an inner scope is decided by what the same name holds further out", map[string]string{"oracle": "shadowing", "wrap": wrap, "root": rootName},
+						map[string]any{"inner": fmt.Sprintf("%#v", pr.inner), "outer": fmt.Sprintf("%#v", pr.outer), "bound_by": wrap, "root": rootName, "expected_truthy": pr.want, "verdicts": verdict})
+				}
+			}
+		}
+	}
+}
+
+type c03ShadowRoot struct {
+	V   any   `json:"v"`
+	Yes bool  `json:"yes"`
+	No  bool  `json:"no"`
+	Vs  []any `json:"vs"`
+	Ins []any `json:"ins"`
 }
